@@ -24,16 +24,33 @@ CHECKS = {
              'x undo/stop x handler bodies; H: ordered pairs/triples of tries in line, in a loop and across calls; Q: ?? operands x use '
              'positions; P: preemptive defeat functions x continuations, checked and unchecked) is run with every future of every '
              'Turing jump explored; the committed trace must equal the trace of the backtracking reference interpreter.'),
+    'C05': dict(
+        level='model_checking', design='6/C05',
+        technique='explicit-state exploration of all Turing-jump futures on a VM + exhaustive boundary grids of indices, lengths and divisors + reference-trace conformance',
+        text='Each fault family (index x length x element type x storage x access; division/modulo operands over a 7x7 boundary grid in 13 '
+             'syntactic positions; dynamic array lengths incl. negative, oversize and cannot-fit; return of preemptive defeat functions) '
+             'is executed on the VM; the committed trace must equal the reference trace, which contains the fault flags exactly when '
+             'the source semantics raise the fault, at the faulting operation, with nothing after them.'),
+    'C09': dict(
+        level='model_checking', design='6/C09',
+        technique='explicit-state exploration on a VM of one operator program per type pair on an exhaustive boundary-value grid; oracle computed with Python integers and cross-checked against the reference interpreter',
+        text='Every operator and cast, in value, branch and !truth_is_defeat position (try/undo, try/stop, inside a defeat function), '
+             'for int/byte operand mixes on all pairs of a boundary grid per word size; unary operators and casts on every 16-bit value '
+             '(thorough).'),
+    'C17': dict(
+        level='model_checking', design='6/C17',
+        technique='explicit-state exploration on a VM with memory-entitlement monitor; exhaustive 16-bit value range and length range; stack-size sweep down to one word',
+        text='write(int) on every 16-bit value (thorough) and boundary sets at W 2,3,4,8; write(byte)/write(bool) on all values; '
+             'write(string / byte arrays) for every length 0..64 from five storage classes; non-interference with live caller state '
+             'at every stack size from 1 to S_min+4 words with every load/store checked against its entitlement.'),
 }
 
 PENDING = {
     'C03': 'check under construction in this round (not a claim that the technique cannot apply)',
     'C04': 'check under construction in this round (not a claim that the technique cannot apply)',
-    'C05': 'check under construction in this round (not a claim that the technique cannot apply)',
     'C06': 'check under construction in this round (not a claim that the technique cannot apply)',
     'C07': 'check under construction in this round (not a claim that the technique cannot apply)',
     'C08': 'check under construction in this round (not a claim that the technique cannot apply)',
-    'C09': 'check under construction in this round (not a claim that the technique cannot apply)',
     'C10': 'check under construction in this round (not a claim that the technique cannot apply)',
     'C11': 'check under construction in this round (not a claim that the technique cannot apply)',
     'C12': 'check under construction in this round (not a claim that the technique cannot apply)',
@@ -41,7 +58,6 @@ PENDING = {
     'C14': 'check under construction in this round (not a claim that the technique cannot apply)',
     'C15': 'check under construction in this round (not a claim that the technique cannot apply)',
     'C16': 'check under construction in this round (not a claim that the technique cannot apply)',
-    'C17': 'check under construction in this round (not a claim that the technique cannot apply)',
     'C18': 'check under construction in this round (not a claim that the technique cannot apply)',
 }
 
